@@ -21,9 +21,11 @@ class GpioWorld(World):
     stub_components = ("CSR initiator (seeded open-loop agent)", "pin input waveforms (seeded)")
     fault_kinds = ("abort", "gap", "abort_multi_chunk_write", "setclr_then_output_back_to_back",
                    "pin_toggles_in_snapshot_cycle", "setclr_code_11", "setclr_code_00",
-                   "unmapped_access", "second_instance_in_process")
+                   "unmapped_access", "second_instance_in_process", "domain_reset")
     assumptions = (
         "Amaranth's Python RTL simulator executes the elaborated netlist faithfully",
+        "a reset of the clock domain returns the component to its initial state (the state the "
+        "property calls initial is the state after reset, as for every Amaranth register)",
         "only transaction-shaped CSR accesses are generated; the register-file half of the model "
         "relies on C04/C05 semantics",
         "pin.o is checked only where the property defines it (push-pull: output bit; open-drain: "
@@ -52,15 +54,17 @@ class GpioWorld(World):
         need = max(1, (end - 1).bit_length())
         return {"dw": dw, "pc": pc, "st": rng.range(0, 3), "aw": need - 1 if (need > 1 and rng.chance(0.04)) else rng.range(need, need + 2),
                 "hwseed": rng.bits(32), "p_pin": rng.choice([10, 50, 90]),
-                "decoy": int(rng.chance(0.12))}
+                "decoy": int(rng.chance(0.12)), "omit": int(rng.chance(0.3))}
 
     def gen_ops(self, rng, config, prop):
         dw, aw = config["dw"], config["aw"]
         ops = []
+        p_rst = rng.choice([0, 0, 0.25])
         for _ in range(rng.range(15, 45)):
             k = rng.below(100)
             if k < 10:
-                ops.append({"k": "idle", "n": rng.range(1, 2)})
+                ops.append({"k": "idle", "n": rng.range(1, 2)} if not rng.chance(p_rst)
+                           else {"k": "reset"})
             elif k < 14:
                 ops.append({"k": "raw", "addr": rng.below(1 << aw), "r": 1, "w": 0, "data": 0,
                             "unmapped_only": 1})
@@ -88,7 +92,9 @@ class GpioWorld(World):
         ctor = (lambda *a_, **k_: hw.must_accept("C16", f"gpio.Peripheral(pin_count={pc}, addr_width="
                                                  f"{aw}, data_width={dw}, input_stages={st})",
                                                  *a_, **k_)) if aw >= need else hw.construct
-        dut = ctor(gpio.Peripheral, pin_count=pc, addr_width=aw, data_width=dw, input_stages=st)
+        dut = ctor(gpio.Peripheral, **hw.spelled(config.get("omit"), {"input_stages": 2},
+                                                 pin_count=pc, addr_width=aw, data_width=dw,
+                                                 input_stages=st))
         if config.get("decoy"):
             gpio.Peripheral(pin_count=(pc % 5) + 1, addr_width=aw + 2, data_width=dw,
                             input_stages=(st + 1) % 4)
@@ -123,7 +129,8 @@ class GpioWorld(World):
             else:
                 ops2.append(op)
         cycles = expand_csr_ops(ops2, [(s.start, s.end) for s in specs], aw, dw, lambda t, b: 0)
-        sim = hw.build_sim(hw.make_top(dut))
+        top, rst = hw.make_top_with_reset(dut)
+        sim = hw.build_sim(top)
         hwseed, p_pin = config["hwseed"], config["p_pin"]
 
         async def tb(ctx):
@@ -135,11 +142,13 @@ class GpioWorld(World):
             prev_addr = prev_rs = 0
             prev_pins = [0] * pc
             last_delivery = None
+            flush = 0
             for t, (addr, rs, ws, wd, tag) in enumerate(cycles):
                 p.set(dut.bus.addr, addr)
                 p.set(dut.bus.r_stb, rs)
                 p.set(dut.bus.w_stb, ws)
                 p.set(dut.bus.w_data, wd)
+                p.set(rst, int(tag == "reset"))
                 pins = [int(cval(hwseed, n, t, 7) % 100 < p_pin) for n in range(pc)]
                 for n, pin in enumerate(dut.pins):
                     p.set(pin.i, pins[n])
@@ -148,6 +157,11 @@ class GpioWorld(World):
                        1: sum(insync[n] << n for n in range(pc)),
                        2: sum(out[n] << n for n in range(pc))}
                 e = rf.step(addr, rs, ws, wd, val)
+                if flush:
+                    flush -= 1
+                    if e.snapshot_taken and e.hit.idx == 1:
+                        rf.snap = None
+                        e.next_r = ("any", None)
                 # ---- outputs of cycle t --------------------------------------------------------
                 got_r = p.get(dut.bus.r_data)
                 if prev is not None and prev.next_r[0] == "exact":
@@ -232,6 +246,16 @@ class GpioWorld(World):
                 if st:
                     line = line[1:] + [pins]
                 prev, prev_addr, prev_rs, prev_pins = e, addr, rs, pins
+                if tag == "reset":
+                    # fault: the peripheral's clock domain is reset in this (idle) cycle, possibly
+                    # between the chunks of a register transaction: every pin is an input again
+                    # and the output bits are clear
+                    mode, out = [0] * pc, [0] * pc
+                    # (the synchroniser stages may or may not take part in the reset: what Input
+                    # returns is left unchecked until they have been flushed)
+                    flush = st + 1
+                    rf._break()
+                    stats.fault("domain_reset")
                 await ctx.tick()
             stats.cycles += len(cycles)
 
